@@ -114,5 +114,5 @@ Theorem invariant_from_empty c ops :
   valid_run [] ops = true -> Inv (fold_left (fun st o => fst (m_step c st o)) ops m_empty).
 Proof. intros V. exact (invariant_reachable c ops m_empty Inv_empty V). Qed.
 
-Theorem sorted_contract l : Sorted.Sorted le (sort_nat l) /\ Permutation.Permutation (sort_nat l) l.
+Theorem sorted_contract l : Sorted.Sorted N.le (sort_nat l) /\ Permutation.Permutation (sort_nat l) l.
 Proof. split; [exact (sort_nat_sorted l)|exact (sort_nat_perm l)]. Qed.
